@@ -12,9 +12,9 @@ func init() { generators["C18"] = genC18 }
 func genC18(tier string, seed int64) (*Family, error) {
 	pkg := "c18"
 	fam := &Family{
-		Prop: "C18", PkgPath: modPath + "/zz_verif/" + pkg, Files: map[string]string{},
+		Prop: "C18", BothOrders: true, PkgPath: modPath + "/zz_verif/" + pkg, Files: map[string]string{},
 		Bounds: map[string]interface{}{"members_per_block": "0..3 (thorough 4)", "member_kinds": "local assignment, injected-field assignment, function, method, three-level call", "failing_subset": "symbolic (panicking injected function)"},
-		Cfg: interp.Config{MaxSteps: 3_000_000, TrackMakeMaps: []string{"base.RuleEntity).Execute"}, TrackAllocs: []string{"eMsg"}},
+		Cfg:    interp.Config{MaxSteps: 3_000_000, TrackMakeMaps: []string{"base.RuleEntity).Execute"}, TrackAllocs: []string{"eMsg"}},
 		Functions: []string{"base.ConcStatement).Evaluate", "base.Assignment).Evaluate", "base.FunctionCall).Evaluate", "base.MethodCall).Evaluate", "base.ThreeLevelCall).Evaluate",
 			"DataContext).ExecFunc", "DataContext).ExecMethod", "DataContext).ExecThreeLevel", "core.InvokeFunction"},
 	}
